@@ -46,6 +46,11 @@ FST_NEW = [("len", "bytes.len()", "usize"), ("version", "version", "u64"), ("roo
 # (coq name, file, owner, fn, mode, declared parameters or None, result is an option, declared result type)
 TARGETS = [
     ("src_fn_pack_size", "src/bytes.rs", None, "pack_size", ("fn",), None, False, None),
+    ("src_fn_unpack_uint", "src/bytes.rs", None, "unpack_uint", ("fn",), None, False, None),
+    ("src_fn_pack_uint_in_bytes", "src/bytes.rs", None, "pack_uint_in", ("arg", "write_all"), None, False, ("bytes",)),
+    ("src_fn_Bound_exceeded_by", "src/raw/mod.rs", "Bound", "exceeded_by", ("fn",), None, False, None),
+    ("src_fn_Bound_is_empty", "src/raw/mod.rs", "Bound", "is_empty", ("fn",), None, False, None),
+    ("src_fn_Bound_is_inclusive", "src/raw/mod.rs", "Bound", "is_inclusive", ("fn",), None, False, None),
     ("src_fn_Output_prefix", "src/raw/mod.rs", "Output", "prefix", ("fn",), None, False, None),
     ("src_fn_Output_cat", "src/raw/mod.rs", "Output", "cat", ("fn",), None, False, None),
     ("src_fn_Output_sub", "src/raw/mod.rs", "Output", "sub", ("fn",), None, False, None),
@@ -216,7 +221,11 @@ def generate(repo, root, use_pinned_for=(), pin=False):
             "   " + ("`+ - *` that can leave their type, division by a possible zero and over-long shifts return Panic;" if ovf
                      else "`+ - *` wrap modulo 2^bits of the operand type;"),
             "   usize and u64 are 64 bit; `as` to a narrower type truncates; results that cannot panic are plain N / bool / option N. *)",
-            "From Coq Require Import NArith List Bool.", "Require Import FstV.Base FstV.Generated.SrcParams.", "Open Scope N_scope.", ""]
+            "From Coq Require Import NArith List Bool.", "Require Import FstV.Base FstV.SrcFunBase FstV.Generated.SrcParams.", "Open Scope N_scope.", "",
+            "(* ranges, enumerate, option equality and the record of a component automaton come from SrcFunBase.v *)", ""]
+    for d in tr.enum_decls():
+        head.append(d)
+        head.append("")
     body = []
     for n in order:
         body.append("(* %s *)" % status.get(n, "translated").replace("(*", "( *").replace("*)", "* )"))
